@@ -41,7 +41,7 @@ Proof. vm_compute. repeat split; try reflexivity; discriminate. Qed.
 (* a forged store: the answer for b. is filed under the key of a. (and nothing else is stored);
    with the identity hash the lookup for a. finds it and the verifier turns it into a miss *)
 Definition ex_forged : store bytes :=
-  set_from_response bytes bytes_eqb (cachekey_pre (mk_q [97;46] 1 1) false None) (mk_q [98;46] 1 1) false None 5 None (empty_store bytes).
+  set_from_response bytes bytes_eqb (cachekey_pre (mk_q [97;46] 1 1) false None) (mk_q [98;46] 1 1) false None 5 None true true (empty_store bytes).
 Example ex_forged_miss :
   option_map e_id (lookup_by_key bytes bytes_eqb ex_forged (cachekey_pre (mk_q [97;46] 1 1) false None)) = Some 5 /\
   serve_msg_exact bytes bytes_eqb (fun p => p) ex_forged (mk_q [97;46] 1 1) false None = None /\
@@ -52,9 +52,9 @@ Proof. vm_compute. repeat split; reflexivity. Qed.
 (* replace: the refresh answers without CD and without scope, the stored entry keeps both *)
 Example ex_replace_inherits :
   let k := cachekey_pre (mk_q [97;46] 1 1) true (Some (mk_scope true 16 [10;1;0;0])) in
-  let e0 := mk_entry (mk_q [97;46] 1 1) true (Some (mk_scope true 16 [10;1;0;0])) 1 None in
+  let e0 := mk_entry (mk_q [97;46] 1 1) true (Some (mk_scope true 16 [10;1;0;0])) 1 None true true in
   let s0 := set_entry bytes bytes_eqb false k e0 (empty_store bytes) in
-  let '(s1, ok) := replace_if_current bytes bytes_eqb k e0 (mk_q [65;46] 1 1) 2 None s0 in
+  let '(s1, ok) := replace_if_current bytes bytes_eqb k e0 (mk_q [65;46] 1 1) 2 None true true s0 in
   ok = true /\
   option_map (fun e => (e_id e, e_cd e, e_scope e)) (kget bytes bytes_eqb k (st_pos bytes s1)) =
   Some (2, true, Some (mk_scope true 16 [10;1;0;0])).
@@ -64,12 +64,12 @@ Proof. vm_compute. split; reflexivity. Qed.
 Example ex_purge :
   let q := mk_q [97;46] 1 1 in
   let hid (p : bytes) := p in
-  let s0 := set_from_response bytes bytes_eqb (cachekey_pre q false None) q false None 1 None (empty_store bytes) in
-  let s1 := set_from_response bytes bytes_eqb (cachekey_pre q true None) q true None 2 None s0 in
+  let s0 := set_from_response bytes bytes_eqb (cachekey_pre q false None) q false None 1 None true true (empty_store bytes) in
+  let s1 := set_from_response bytes bytes_eqb (cachekey_pre q true None) q true None 2 None true true s0 in
   let sc := Some (mk_scope true 16 [10;1;0;0]) in
-  let s2 := set_from_response bytes bytes_eqb (cachekey_pre q false sc) (mk_q [65;46] 1 1) false sc 3 None s1 in
+  let s2 := set_from_response bytes bytes_eqb (cachekey_pre q false sc) (mk_q [65;46] 1 1) false sc 3 None true true s1 in
   let qb := mk_q [98;46] 1 1 in
-  let s3 := set_from_response bytes bytes_eqb (cachekey_pre qb false None) qb false None 4 None s2 in
+  let s3 := set_from_response bytes bytes_eqb (cachekey_pre qb false None) qb false None 4 None true true s2 in
   let s4 := purge bytes bytes_eqb hid (mk_q [65;46] 1 1) s3 in
   (length (st_pos bytes s3), length (st_pos bytes s4)) = (4%nat, 1%nat) /\
   option_map e_id (serve_msg_exact bytes bytes_eqb hid s3 q false (Some (mk_scope true 24 [10;1;2;0]))) = Some 3 /\
